@@ -24,7 +24,9 @@ pub const MODE_UPGRADE: u8 = 5;
 
 pub trait Scheduler: Sync + Send {
     /// Blocking acquisition: returns once `try_fn` has returned true on this thread's turn.
-    fn acquire(&self, addr: usize, mode: u8, try_fn: &dyn Fn() -> bool);
+    /// `timed_fn` is the original BLOCKING acquisition with a timeout (used only to confirm a
+    /// suspected deadlock with the real lock semantics, or after control has been given up).
+    fn acquire(&self, addr: usize, mode: u8, try_fn: &dyn Fn() -> bool, timed_fn: &dyn Fn(Duration) -> bool);
     /// Non-blocking (or timed) acquisition: one scheduling point, then at most one `try_fn`.
     fn try_acquire(&self, addr: usize, mode: u8, try_fn: &dyn Fn() -> bool) -> bool;
     /// Called after the real unlock.
@@ -85,7 +87,7 @@ unsafe impl lock_api::RawMutex for RawMutex {
     #[inline]
     fn lock(&self) {
         match sched() {
-            Some(s) => s.acquire(self.addr(), MODE_MUTEX, &|| lock_api::RawMutex::try_lock(&self.inner)),
+            Some(s) => s.acquire(self.addr(), MODE_MUTEX, &|| lock_api::RawMutex::try_lock(&self.inner), &|d| lock_api::RawMutexTimed::try_lock_for(&self.inner, d)),
             None => lock_api::RawMutex::lock(&self.inner),
         }
     }
@@ -156,9 +158,9 @@ impl RawRwLock {
 }
 
 macro_rules! blocking {
-    ($self:ident, $mode:expr, $try:expr, $orig:expr) => {
+    ($self:ident, $mode:expr, $try:expr, $timed:expr, $orig:expr) => {
         match sched() {
-            Some(s) => s.acquire($self.addr(), $mode, &|| $try),
+            Some(s) => s.acquire($self.addr(), $mode, &|| $try, &$timed),
             None => $orig,
         }
     };
@@ -186,7 +188,7 @@ unsafe impl lock_api::RawRwLock for RawRwLock {
 
     #[inline]
     fn lock_exclusive(&self) {
-        blocking!(self, MODE_EXCLUSIVE, lock_api::RawRwLock::try_lock_exclusive(&self.inner), lock_api::RawRwLock::lock_exclusive(&self.inner))
+        blocking!(self, MODE_EXCLUSIVE, lock_api::RawRwLock::try_lock_exclusive(&self.inner), |d| lock_api::RawRwLockTimed::try_lock_exclusive_for(&self.inner, d), lock_api::RawRwLock::lock_exclusive(&self.inner))
     }
     #[inline]
     fn try_lock_exclusive(&self) -> bool {
@@ -198,7 +200,7 @@ unsafe impl lock_api::RawRwLock for RawRwLock {
     }
     #[inline]
     fn lock_shared(&self) {
-        blocking!(self, MODE_SHARED, lock_api::RawRwLock::try_lock_shared(&self.inner), lock_api::RawRwLock::lock_shared(&self.inner))
+        blocking!(self, MODE_SHARED, lock_api::RawRwLock::try_lock_shared(&self.inner), |d| lock_api::RawRwLockTimed::try_lock_shared_for(&self.inner, d), lock_api::RawRwLock::lock_shared(&self.inner))
     }
     #[inline]
     fn try_lock_shared(&self) -> bool {
@@ -275,7 +277,7 @@ unsafe impl lock_api::RawRwLockTimed for RawRwLock {
 unsafe impl lock_api::RawRwLockRecursive for RawRwLock {
     #[inline]
     fn lock_shared_recursive(&self) {
-        blocking!(self, MODE_SHARED_RECURSIVE, lock_api::RawRwLockRecursive::try_lock_shared_recursive(&self.inner), lock_api::RawRwLockRecursive::lock_shared_recursive(&self.inner))
+        blocking!(self, MODE_SHARED_RECURSIVE, lock_api::RawRwLockRecursive::try_lock_shared_recursive(&self.inner), |d| lock_api::RawRwLockRecursiveTimed::try_lock_shared_recursive_for(&self.inner, d), lock_api::RawRwLockRecursive::lock_shared_recursive(&self.inner))
     }
     #[inline]
     fn try_lock_shared_recursive(&self) -> bool {
@@ -297,7 +299,7 @@ unsafe impl lock_api::RawRwLockRecursiveTimed for RawRwLock {
 unsafe impl lock_api::RawRwLockUpgrade for RawRwLock {
     #[inline]
     fn lock_upgradable(&self) {
-        blocking!(self, MODE_UPGRADABLE, lock_api::RawRwLockUpgrade::try_lock_upgradable(&self.inner), lock_api::RawRwLockUpgrade::lock_upgradable(&self.inner))
+        blocking!(self, MODE_UPGRADABLE, lock_api::RawRwLockUpgrade::try_lock_upgradable(&self.inner), |d| lock_api::RawRwLockUpgradeTimed::try_lock_upgradable_for(&self.inner, d), lock_api::RawRwLockUpgrade::lock_upgradable(&self.inner))
     }
     #[inline]
     fn try_lock_upgradable(&self) -> bool {
@@ -310,7 +312,7 @@ unsafe impl lock_api::RawRwLockUpgrade for RawRwLock {
     #[inline]
     unsafe fn upgrade(&self) {
         match sched() {
-            Some(s) => s.acquire(self.addr(), MODE_UPGRADE, &|| lock_api::RawRwLockUpgrade::try_upgrade(&self.inner)),
+            Some(s) => s.acquire(self.addr(), MODE_UPGRADE, &|| lock_api::RawRwLockUpgrade::try_upgrade(&self.inner), &|d| lock_api::RawRwLockUpgradeTimed::try_upgrade_for(&self.inner, d)),
             None => lock_api::RawRwLockUpgrade::upgrade(&self.inner),
         }
     }
